@@ -132,6 +132,25 @@ impl Directive {
                     | Directive::Error => bail!("missing operand for .{}, {}", self, point),
                     _ => {}
                 }
+            } else if values.len() > 1 {
+                // these take one operand, what follows it would be dropped without a word
+                match self {
+                    Directive::Undef
+                    | Directive::Byte
+                    | Directive::Org
+                    | Directive::Include
+                    | Directive::IncludePath
+                    | Directive::If
+                    | Directive::ElIf
+                    | Directive::IfDef
+                    | Directive::IfNDef
+                    | Directive::Define
+                    | Directive::Macro
+                    | Directive::Message
+                    | Directive::Warning
+                    | Directive::Error => bail!("too many operands for .{}, {}", self, point),
+                    _ => {}
+                }
             }
         }
 
